@@ -38,7 +38,7 @@ TargetKnown(ev, T) ==
     \/ \E m \in Responded(ev.contacts, T) : InSeq(T[m].reply, Target) /\ Target \notin BadOf(T)
 
 ObsRes(ev) == [closest |-> ev.res.closest, contacted |-> ev.res.contacted, responded |-> ev.res.responded,
-               accepted |-> ev.res.accepted, from |-> ev.res.from, hasval |-> ev.res.hasval,
+               accepted |-> ev.res.accepted, from |-> ev.res.from, hasval |-> ev.res.hasval, valok |-> ev.res.valok,
                valsrc |-> ToSet(ev.res.valsrc), added |-> ev.res.added]
 
 \* strict comparison with the specification's prediction
@@ -63,15 +63,15 @@ Drift(ev, T, p) ==
                                ELSE \E i \in 1..Len(T[m].reply) : ~Lt(T[m].reply[i], m)
      THEN {"cap"} ELSE {})
 
-TraceInit == l = 1 /\ st = Start("findnode", <<>>, 0)
+TraceInit == l = 1 /\ st = Start("findnode", <<>>, 0, 0)
 
 TraceNext ==
     /\ l <= Len(Log)
     /\ l' = l + 1
     /\ LET ev == Log[l]
            T == TopoOf(ev)
-           p == Run(Start(ev.op, ev.init, ev.min), T, BadOf(T))
-           vs == Falsified(ev.op, ev.min, ev.contacts, T, TargetKnown(ev, T), ObsRes(ev),
+           p == Run(Start(ev.op, ev.init, ev.min, ev.vmode), T, BadOf(T))
+           vs == Falsified(ev.op, ev.min, ev.vmode, ev.contacts, T, TargetKnown(ev, T), ObsRes(ev),
                            ev.err, ev.panic, ev.nonterm)
            ds == Drift(ev, T, p)
        IN /\ st' = p
